@@ -66,17 +66,6 @@ def labelCount (s : Stmt) : Bool :=
     | .remove its => its.any fun | .labels .. => true | _ => false
     | _ => false
 
-/-- C12-detach-delete-double-count: DETACH DELETE of a node together with one of its relationships -/
-def detachDouble (g : Graph) (s : Stmt) : Bool :=
-  let rows := prefixRows A params g s
-  s.updates.any fun
-    | .delete true vars =>
-      let vals := rows.flatMap fun r => vars.filterMap r.get
-      vals.any fun v => match v with
-        | .rel e => vals.contains (.node e.src) || vals.contains (.node e.dst)
-        | _ => false
-    | _ => false
-
 /-- C12-merge-partial-pattern-reuse: relationship MERGE whose end nodes are not both bound re-uses existing
     nodes that match the node patterns instead of matching / creating the whole pattern -/
 def mergePartial (g : Graph) (s : Stmt) : Bool :=
@@ -113,7 +102,6 @@ def triggers (g : Graph) (names : List String) (s : Stmt) : List String :=
   (if nullBound A params g s then ["C12-null-bound-variable-recreated"] else []) ++
   (if repeatedTarget A params g s then ["C12-writes-decided-against-snapshot"] else []) ++
   (if labelCount s then ["C12-label-count-unconditional"] else []) ++
-  (if detachDouble A params g s then ["C12-detach-delete-double-count"] else []) ++
   (if mergePartial A params g s then ["C12-merge-partial-pattern-reuse"] else []) ++
   (if mergeStale s then ["C12-merge-stale-overlay"] else []) ++
   (if setReordered s then ["C12-set-items-reordered"] else [])
